@@ -2,11 +2,15 @@ pub mod common;
 pub mod c06;
 pub mod qrig;
 pub mod c05;
+pub mod c19;
+pub mod c10;
 use crate::Ctx;
 pub fn run(prop: &str, ctx: &mut Ctx) -> bool {
     match prop {
         "C06" => c06::run(ctx),
         "C05" => c05::run(ctx),
+        "C19" => c19::run(ctx),
+        "C10" => c10::run(ctx),
         "C01" | "C02" | "C03" | "C04" => { let n = ctx.budget(72, 12); qrig::standard_histories(ctx, &prop.to_lowercase(), n) }
         _ => return false,
     }
